@@ -12,11 +12,19 @@ symbolic links) at any nesting depth:
   immediately preceded by the successful check of a path resolving to it
   (`C18_contained`, `C18_checked`, `C18_ingest_file`);
 * an error yields no output: the model's result type carries bytes only on success.
+Runs that FAIL after having read something are covered too: the traced variants
+(`Traced.preprocessT`, `Traced.ingestFileT`, Asm/IngestTraced.lean) perform the same
+steps but return the trace in every case (a refused check is recorded as
+`.check p false`, a read as soon as it is attempted); they agree with the model
+above (`C18_traced_agrees`, `C18_traced_agrees_preprocess`) and the containment
+invariant holds for every run, whatever its outcome (`C18_all_runs_contained`,
+`C18_all_runs_checked`, `C18_all_runs_ingest_file`).
 Partial by nature: that `std::fs::canonicalize` computes the fully resolved
 location, and that the file read is the file checked (no concurrent
 modification), are assumptions about the operating system (`FS`).
 -/
 import EtkVerif.Asm.IngestLemmas
+import EtkVerif.Asm.IngestTraced
 namespace EtkVerif.C18
 open Asm
 
@@ -47,5 +55,58 @@ theorem C18_ingest_file (fs : FS) (cwd : PathC) (rnd : Nat → Nat) (fuel : Nat)
     (bytes : List Nat) (tr : List Event) (h : ingestFile fs cwd rnd fuel path = .ok (bytes, tr)) :
     ∀ loc ∈ readsOf tr, ∃ r, Root.new fs cwd path = .ok r ∧ startsWith loc r.canonicalized = true :=
   ingestFile_contained fs cwd rnd fuel path bytes tr h
+
+/-! ### all runs, including those that fail after having read something -/
+open Traced
+
+/-- Whatever the outcome of the run, the trace of `preprocessT` extends the input
+trace by events whose reads all lie inside the root. -/
+theorem C18_all_runs_contained (fs : FS) (cwd : PathC) (fuel : Nat) (prog : Program) (src : List Nat)
+    (tr : List Event) :
+    ∃ extra, (preprocessT fs cwd fuel prog src tr).2 = tr ++ extra ∧
+      ∀ loc ∈ readsOf extra, ∃ r : Root,
+        (prog.root = some r ∨ (prog.root = none ∧ ∃ p, Root.new fs cwd p = .ok r)) ∧
+        startsWith loc r.canonicalized = true :=
+  preprocessT_contained fs cwd fuel prog src tr
+
+/-- … and every read of every run is immediately preceded by the successful check
+of a path resolving to that very location. -/
+theorem C18_all_runs_checked (fs : FS) (cwd : PathC) (fuel : Nat) (prog : Program) (src : List Nat)
+    (tr : List Event) :
+    ∃ extra, (preprocessT fs cwd fuel prog src tr).2 = tr ++ extra ∧
+      ∀ (i : Nat) (loc : List String), extra[i + 1]? = some (Event.read loc) →
+        ∃ p, extra[i]? = some (Event.check p true) ∧ fs.canon p = some loc :=
+  preprocessT_checked fs cwd fuel prog src tr
+
+/-- Every read of every run of `ingest_file`, successful or not, lies inside the
+root of the top-level file. -/
+theorem C18_all_runs_ingest_file (fs : FS) (cwd : PathC) (rnd : Nat → Nat) (fuel : Nat) (path : PathC) :
+    ∀ loc ∈ readsOf (ingestFileT fs cwd rnd fuel path).2,
+      ∃ r, Root.new fs cwd path = .ok r ∧ startsWith loc r.canonicalized = true :=
+  ingestFileT_contained fs cwd rnd fuel path
+
+/-- The traced `ingest_file` agrees with the model: same bytes and trace on success,
+same error on failure, and in every case the same outcome once the trace is dropped. -/
+theorem C18_traced_agrees (fs : FS) (cwd : PathC) (rnd : Nat → Nat) (fuel : Nat) (path : PathC) :
+    (∀ bytes tr, ingestFile fs cwd rnd fuel path = .ok (bytes, tr) →
+      ingestFileT fs cwd rnd fuel path = (.ok bytes, tr)) ∧
+    (∀ e, ingestFile fs cwd rnd fuel path = .error e →
+      ∃ tr, ingestFileT fs cwd rnd fuel path = (.error e, tr)) ∧
+    (ingestFile fs cwd rnd fuel path).map Prod.fst = (ingestFileT fs cwd rnd fuel path).1 :=
+  ⟨fun bytes tr h => ingestFileT_of_ok fs cwd rnd fuel path bytes tr h,
+   fun e h => ingestFileT_of_error fs cwd rnd fuel path e h,
+   ingestFileT_fst fs cwd rnd fuel path⟩
+
+/-- The same for `preprocess`, where a failing run's trace extends the input trace. -/
+theorem C18_traced_agrees_preprocess (fs : FS) (cwd : PathC) (fuel : Nat) (prog : Program) (src : List Nat)
+    (tr : List Event) :
+    (∀ ops tr', preprocess fs cwd fuel prog src tr = .ok (ops, tr') →
+      preprocessT fs cwd fuel prog src tr = (.ok ops, tr')) ∧
+    (∀ e, preprocess fs cwd fuel prog src tr = .error e →
+      ∃ extra, preprocessT fs cwd fuel prog src tr = (.error e, tr ++ extra)) ∧
+    (preprocess fs cwd fuel prog src tr).map Prod.fst = (preprocessT fs cwd fuel prog src tr).1 :=
+  ⟨fun ops tr' h => preprocessT_of_ok fs cwd fuel prog src tr ops tr' h,
+   fun e h => preprocessT_of_error fs cwd fuel prog src tr e h,
+   preprocessT_fst fs cwd fuel prog src tr⟩
 
 end EtkVerif.C18
